@@ -158,14 +158,17 @@ def cav_dp(ctx):
     rng = ctx.rng
     n_cases = 40 if ctx.tier == 'quick' else 400
     dts = [(1.0, 1), (0.5, 2), (0.25, 4), (0.125, 8), (0.2, 5), (0.1, 10), (0.05, 20), (0.02, 50), (0.01, 100), (0.005, 200)]
-    for i in range(n_cases):
+    n_tie = 20 if ctx.tier == 'quick' else 100           # round 9 (hx_r9a): exact ties with the gate, see _cavdp_tie_record
+    for i in range(n_cases + n_tie):
         dt, pps = dts[i % len(dts)]
         dur = rng.choice([2, 3, 4.5, 7, 12, 25, 40]) if dt < 0.1 or i % 2 else rng.choice([2, 3, 5])
         n = int(round(dur / dt)) + 1
         # the gate is 0.025 g = 0.24525 m/s2 (+ source hints: amplitudes at / around every new float constant, read in m/s2 and in g)
         amp = rng.choice([0.1, 0.2, 0.245, 0.25, 0.3, 1.0] + gen.hint_values(ctx, 1e-3, 20.0, cap=14, maps=(lambda c: c, lambda c: 9.81 * c)))
         shape = rng.choice(['noise', 'burst', 'quiet', 'boundary'])
-        if shape == 'noise':
+        if i >= n_cases:
+            shape, a = _cavdp_tie_record(ctx, rng, n, pps, i - n_cases)
+        elif shape == 'noise':
             a = np.array([rng.gauss(0, 1) for _ in range(n)]) * amp
         elif shape == 'burst':
             a = np.array([rng.gauss(0, 1) for _ in range(n)]) * 0.02
@@ -176,15 +179,20 @@ def cav_dp(ctx):
         else:   # the only large sample sits on a window boundary
             a = np.array([rng.uniform(-1, 1) for _ in range(n)]) * 0.05
             a[pps * rng.randrange(1, max(2, int(dur)))] = 0.5
-        if dt in (1.0, 0.5, 0.25, 0.125):
+        quantised = dt in (1.0, 0.5, 0.25, 0.125) and i < n_cases    # tie records keep their floats (the rational model has no float ties)
+        if quantised:
             a = np.round(a * 64) / 64
         ctx.hist(f'cavdp/dt={dt}')
         ctx.hist('cavdp/' + shape)
         ctx.count_case(('cavdp', a.tobytes(), dt), True, sample={'fn': 'calc_cav_dp', 'n': n, 'dt': dt, 'shape': shape} if i < 2 else None)
         asig = ctx.aged(eqsig.AccSignal, a, dt)
+        if i % 5 == 4:      # round 9 (hx_r9a): every fifth object is one of two shallow-copy siblings (the other one much quieter / louder, read last)
+            asig = gen.aged_signal(rng, eqsig.AccSignal, a, dt, _pick=lambda kinds: 'copy-fork')[1]
+            ctx.hist('object-history/copy-fork (directed)')
+            ctx.last_object_history = 'copy-fork'
         res = call_impl(im.calc_cav_dp, asig)
         inputs = {'a': a, 'dt': dt}
-        if dt in (1.0, 0.5, 0.25, 0.125):
+        if quantised:
             def compare(outs, val):
                 msg, g = cmp_budget(list(val), p_rats(outs[0]), Fraction(1, 10**11), abs_floor=Fraction(1, 10**18))
                 ctx.gap('calc_cav_dp', g)
@@ -228,6 +236,47 @@ def cav_dp(ctx):
         t1s = np.arange(total_seconds)
         ctx.oracle('CAVdp: series is the interpolation of the per-second totals',
                    bool(np.allclose(s, np.interp(asig.time, t1s, per_sec), rtol=1e-12, atol=0)), inputs)
+
+
+def _cavdp_tie_record(ctx, rng, n, pps, j):
+    """round 9 (hx_r9a): records whose only samples REACHING the gate are exact floating-point ties with it.  The gate is `|a|/9.81 >= 0.025`
+    (+ every new float constant c of the changed source read as a gate in g): sample values v with fl(v/9.81) == c exactly, and the float
+    neighbours on both sides (one qualifies, the other does not), placed
+      mark       on ONE whole-second mark (the closing sample of a window and the opening sample of the next one; the last mark of the record
+                 closes a window without opening one), nothing else in either window reaching the gate;
+      mark-1/+1  one sample before / after a mark (belongs to one window only);
+      inside     somewhere inside a window;
+      marks      on two marks / a mark and an inside sample of another window (exact ties elsewhere in the record).
+    The background is well below the gate but carries a window integral far above the one-panel tolerance of the oracle."""
+    g = 9.81
+    gates = [0.025] + [c for c in gen.hint_values(ctx, 1e-3, 1.0, cap=6) if c > 0][:3]
+    c = gates[j % len(gates)] if j % 3 == 2 else gates[0]
+    v0 = c * g
+    cands = [v0, float(np.nextafter(v0, np.inf)), float(np.nextafter(v0, 0.0)), float(np.nextafter(np.nextafter(v0, 0.0), 0.0)),
+             float(np.nextafter(np.nextafter(v0, np.inf), np.inf))]
+    ties = [v for v in cands if v / g == c] or [v0]
+    below = [v for v in cands if v / g < c]
+    marks = list(range(1, (n - 1) // pps + 1))
+    place = ['mark', 'mark', 'mark-last', 'mark-1', 'mark+1', 'inside', 'marks', 'mark+inside', 'below-on-mark'][j % 9]
+    bg = c * g * rng.choice([0.2, 0.4, 0.8])
+    a = np.array([rng.uniform(-1, 1) for _ in range(n)]) * bg
+    if pps >= 2:
+        a[::2] = np.abs(a[::2]) * 0.5 + 0.5 * bg        # a solid |a| integral in every window
+    v = rng.choice(ties) * rng.choice([1.0, -1.0])
+    m = marks[-1] if place == 'mark-last' else rng.choice(marks)
+    if place in ('mark', 'mark-last', 'marks', 'mark+inside'):
+        a[m * pps] = v
+    if place == 'marks':
+        a[rng.choice(marks) * pps] = -v
+    if place == 'mark-1':
+        a[m * pps - 1] = v
+    if place == 'mark+1':
+        a[min(m * pps + 1, n - 1)] = v
+    if place in ('inside', 'mark+inside'):
+        a[rng.randrange(n)] = rng.choice(ties)
+    if place == 'below-on-mark' and below:
+        a[m * pps] = rng.choice(below) * rng.choice([1.0, -1.0])
+    return 'tie/' + place, a
 
 
 # ---- extras2 (harness extension hx_a): large instances, extreme magnitudes and time steps, wrappers, containers / dtypes, histories ------
